@@ -316,7 +316,37 @@ def rule_shared(ctx):
             yield o
 
 
+def rule_fform(ctx):
+    """Shared with C01/C04: F is the weighted harmonic mean, hence F(1, 1) = 1 for every beta."""
+    from . import c01
+
+    for o in c01.rule_fform(ctx):
+        o.rule = "C02.FFORM"
+        yield o
+
+
+def rule_chromafold(ctx):
+    """Shared with C07.CHROMATWIN: chroma scores are the raw scores on per-frame np.mod(., 12) inputs with the circular
+    distance, so a copy of the reference (every multiplicity kept) is matched completely."""
+    from . import c07
+
+    for o in c07.rule_chromatwin(ctx):
+        if o.construct.startswith("multipitch."):
+            o.rule = "C02.CHROMAFOLD"
+            yield o
+
+
+def rule_firstn(ctx):
+    """Shared with C04.FIRSTN: with <= n estimated patterns the first-n scores see all of them, so a copy scores 1."""
+    from . import c04
+
+    yield from c04.rule_firstn(ctx, R="C02.FIRSTN")
+
+
 RULES = [
+    ("C02.FIRSTN", 4, rule_firstn),
+    ("C02.FFORM", 2, rule_fform),
+    ("C02.CHROMAFOLD", 3, rule_chromafold),
     ("C02.MELODYTWIN", 5, rule_melodytwin),
     ("C02.ENCODEPURE", 10, rule_shared),
     ("C02.MIRRORPIPE", 125, rule_mirrorpipe),
